@@ -311,6 +311,7 @@ def run_shard(spec, rec):
         feed(G.SigGen(rng, keys).p2pk_like(150), 100)
         feed(G.boundary_s_cases(rng, keys), 300)
         feed(G.nullfail_matrix(rng, keys), 500)
+        feed(G.tiny_sig_matrix(rng, keys), 100)
     elif kind == "mut":
         feed(G.corpus_mutations(rng, dd, spec["n"]), 3000)
     elif kind == "opm":
